@@ -29,7 +29,12 @@ RULE = (
     "and the wind speeds {U10 1, 10, 40; u* 0.5, 1.5}; 'params_by_parity': the parameter set (default / non-default) "
     "is chosen by the parity of the case indices; the balance units use four fixed winds and (quick) every third "
     "spectrum. Every case is run inside "
-    "a batch (sizes cycle 1..8) and alone. A case is non-trivial when the spectrum has energy and the "
+    "a batch (sizes cycle 1..8) and alone. Object reuse: for each kind of object (ST4 input, ST4 / ST6 / Romero "
+    "dissipation, st4/st4 and st4/st6 balance) ONE object is run on every ordered sequence of three out of five "
+    "spectra (two on grid A, one each on two other grids of the same (12,16) shape, one of shape (20,24)), all "
+    "methods at every step, and on every ordered pair of (spectrum, single method) operations with a change of "
+    "grid; every result must equal that of a freshly constructed object, and bulk = sum(rate*df*dtheta) with the "
+    "spectrum's own bin widths. A case is non-trivial when the spectrum has energy and the "
     "rate it produces is non-zero in at least one bin; distinct = distinct case labels."
 )
 ASSUMPTIONS = [
@@ -43,6 +48,7 @@ ASSUMPTIONS = [
     "Romero dissipation is only evaluated on strictly positive spectra (it divides by the bin saturation)",
 ]
 REQUIRED_CATEGORIES = [
+    "reuse_sequences", "reuse_method_pairs", "reuse_grid_switch_same_shape", "reuse_shape_switch",
     "input_positive_bins", "input_zero_no_downwind", "input_zero_no_energy", "input_bins_at_exactly_90deg",
     "input_solved_roughness_finite", "input_scaling_checked", "input_ustar", "input_u10",
     "diss_negative_bins", "diss_zero_no_energy", "diss_empty_spectrum", "diss_identically_zero_nonempty",
@@ -295,11 +301,14 @@ def units(tier):
         for k in range(n):
             us.append({"name": f"gen:{g}:shard{k}of{n}", "kind": "gen", "grid": g, "shard": [k, n],
                        "cost": 100 if tier == "quick" else 300})
+        # the object-reuse families ride on units that compile the functions they need anyway
         for term in ("st4", "st6", "romero"):
             us.append({"name": f"diss:{term}:{g}", "kind": "diss", "grid": g, "term": term,
+                       "reuse": [term + "_dissipation"] if g == "A" else [],
                        "cost": {"st4": 90, "st6": 70, "romero": 70}[term]})
         for term in ("st4", "st6"):
-            us.append({"name": f"bal:{term}:{g}", "kind": "bal", "grid": g, "term": term,
+            reuse = [f"balance_st4_{term}"] if g == "A" else (["st4_input"] if term == "st6" else [])
+            us.append({"name": f"bal:{term}:{g}", "kind": "bal", "grid": g, "term": term, "reuse": reuse,
                        "cost": (110 if term == "st4" else 100) * (1 if tier == "quick" else 3)})
     return us
 
@@ -605,6 +614,8 @@ def run_diss(unit):
                     c.cat("romero_cases")
             if len(c.samples) < 2 and n == 3 and B is not None:
                 c.sample({"batch": bkey, "bulk_rate": B})
+    for fam in unit.get("reuse", []):
+        run_reuse(c, v, fam, unit["tier"])
     return c.result()
 
 
@@ -749,7 +760,177 @@ def run_bal(unit):
                     c.cat("nondefault_parameters")
             if len(c.samples) < 2 and n == 2:
                 c.sample({"batch": bkey, "bulk_imbalance": IB})
+    for fam in unit.get("reuse", []):
+        run_reuse(c, v, fam, unit["tier"])
     return c.result()
+
+
+# ----------------------------------------------------------------------------------------
+# object reuse: one source-term / balance object evaluated on a history of spectra
+# ----------------------------------------------------------------------------------------
+# A source-term object carries no state that may depend on the spectra it has seen: every result must be
+# the result a freshly constructed object gives for that spectrum.  Alphabet: five spectra - two on grid A,
+# one each on two other grids of the SAME (nf, nd) shape (other frequencies, direction offset / other
+# non-uniform widths) and one on a grid of a different shape.  Every ordered sequence of length 3 (all
+# shorter ones are its prefixes; every step is checked) is run on one object with all methods per step, and
+# every ordered pair of (spectrum, single method) operations on one object.
+REUSE_GRIDS = {
+    "A": GRIDS["A"],
+    # same shape (12, 16): uniform frequencies, uniform directions offset by half a bin
+    "A1": dict(f=0.06 + 0.04 * np.arange(12), d=11.25 + 22.5 * np.arange(16)),
+    # same shape: geometric frequencies with another ratio, other non-uniform direction widths
+    "A2": dict(f=0.07 * 1.2 ** np.arange(12),
+               d=np.array([0, 15, 45, 75, 90, 105, 135, 165, 180, 195, 225, 240, 270, 285, 315, 345.0])),
+    # different shape (20, 24)
+    "B": GRIDS["B"],
+}
+REUSE_ITEMS = [("A", "jonswap", 2.0, 0.15, 45.0, 40.0), ("A", "pm", 3.0, 0.12, 200.0, 15.0),
+               ("A1", "jonswap", 2.0, 0.15, 45.0, 40.0), ("A2", "jonswap", 2.0, 0.15, 45.0, 40.0),
+               ("B", "jonswap", 2.0, 0.15, 45.0, 40.0)]
+REUSE_WIND = (10.0, 60.0)
+REUSE_Z0 = 1e-4
+
+
+def reuse_items():
+    """-> list of dict(label, grid, sp, E, df, dth): two-point spectrum objects (E at infinite depth, E/2 at 20 m)."""
+    out = []
+    for (g, kind, hs, fp, mean, width) in REUSE_ITEMS:
+        grid = REUSE_GRIDS[g]
+        E = parametric(grid, kind, hs, fp, mean, width)
+        Es = np.stack([E, 0.5 * E])
+        sp = make_2d(grid["f"], grid["d"], Es, depth=np.array([np.inf, 20.0]))
+        df, dth = steps(grid["f"], grid["d"])
+        out.append({"label": f"{g}:{kind}", "grid": g, "sp": sp, "E": Es, "df": df, "dth": dth})
+    return out
+
+
+def reuse_methods(term):
+    """name -> function(object, item) -> ndarray, for the kind of object under test."""
+    U, D = REUSE_WIND
+
+    def wind(it):
+        sp = it["sp"]
+        return da(sp, [U, U]), da(sp, [D, D]), da(sp, [REUSE_Z0, REUSE_Z0])
+
+    if term == "st4_input":
+        return {
+            "rate": lambda o, it: o.rate(it["sp"], wind(it)[0], wind(it)[1], roughness_length=wind(it)[2]).values,
+            "bulk_rate": lambda o, it: o.bulk_rate(it["sp"], wind(it)[0], wind(it)[1],
+                                                   roughness_length=wind(it)[2]).values,
+            "roughness": lambda o, it: o.roughness(wind(it)[0], wind(it)[1], it["sp"]).values,
+            "stress": lambda o, it: o.stress(it["sp"], wind(it)[0], wind(it)[1],
+                                             roughness_length=wind(it)[2])["stress"].values,
+        }
+    if term.startswith("balance"):
+        return {
+            "rate": lambda o, it: o.evaluate_imbalance(wind(it)[0], wind(it)[1], it["sp"]).values,
+            "bulk_rate": lambda o, it: o.evaluate_bulk_imbalance(wind(it)[0], wind(it)[1], it["sp"]).values,
+        }
+    return {
+        "rate": lambda o, it: o.rate(it["sp"]).values,
+        "bulk_rate": lambda o, it: o.bulk_rate(it["sp"]).values,
+        "mean_direction": lambda o, it: o.mean_direction_degrees(it["sp"]).values,
+    }
+
+
+def reuse_factory(term, pset):
+    from ocean_science_utilities.wavephysics.balance.balance import SourceTermBalance
+
+    if term == "st4_input":
+        return lambda: make_generation(pset)
+    if term.startswith("balance_"):
+        diss = term.split("_")[-1]
+        return lambda: SourceTermBalance(make_generation(pset), make_dissipation(diss, pset))
+    return lambda: make_dissipation(term.split("_")[0], pset)
+
+
+def run_reuse(c, v, term, tier):
+    """term: 'st4_input', 'st4_dissipation', 'st6_dissipation', 'romero_dissipation', 'balance_st4_st4',
+    'balance_st4_st6'."""
+    import itertools
+
+    items = reuse_items()
+    if term == "romero_dissipation":
+        for it in items:  # strictly positive spectra
+            it["sp"].dataset["variance_density"].values[...] = it["E"] + 1e-4 * it["E"].max()
+            it["E"] = it["sp"].variance_density.values.copy()
+    methods = reuse_methods(term)
+    n = len(items)
+    for pset in (["default"] if tier == "quick" else ["default", "nondefault"]):
+        new = reuse_factory(term, pset)
+        # history-free references: a fresh object per (spectrum, method)
+        fresh = {}
+        for i, it in enumerate(items):
+            for m, fn in methods.items():
+                try:
+                    fresh[(i, m)] = fn(new(), it)
+                except Exception as exc:  # noqa  (the stateless units report exceptions; here: not evaluable)
+                    fresh[(i, m)] = None
+                    c.cat("reuse_not_evaluable")
+            # bulk = sum(rate * df * dtheta) with the spectrum's OWN bin widths, on the fresh object too
+            if not term.startswith("balance") and fresh[(i, "rate")] is not None and fresh[(i, "bulk_rate")] is not None:
+                for k in range(fresh[(i, "rate")].shape[0]):
+                    ref, scale = integral(fresh[(i, "rate")][k], it["df"], it["dth"])
+                    if not abs(float(fresh[(i, "bulk_rate")][k]) - ref) <= 1e-10 * scale:
+                        v.add({"term": term, "family": "object_reuse", "check": "fresh:bulk", "spectrum": it["label"],
+                               "params": pset}, "bulk_rate != sum(rate*df*dtheta) with the spectrum's own bin widths",
+                              bulk=float(fresh[(i, "bulk_rate")][k]), reference=ref)
+
+        def step(obj, hist, i, m):
+            """evaluate method m for item i on the used object and compare with the fresh object."""
+            it = items[i]
+            want = fresh[(i, m)]
+            if want is None:
+                return
+            key = {"term": term, "family": "object_reuse", "params": pset, "check": "reuse:" + m,
+                   "history": [items[j]["label"] + ("" if mm is None else "." + mm) for j, mm in hist],
+                   "spectrum": it["label"]}
+            got = lib(v, key, methods[m], obj, it)
+            c.evaluations += 1
+            if got is None:
+                return
+            if got.shape != want.shape or not same(got, want):
+                dev = float(np.nanmax(np.abs(got - want))) if got.shape == want.shape else float("nan")
+                v.add(key, f"{m} from an object that was used on other spectra before differs from a fresh object",
+                      max_abs_dev=dev, max_abs_fresh=float(np.nanmax(np.abs(want))))
+            if m == "bulk_rate" and not term.startswith("balance") and fresh[(i, "rate")] is not None \
+                    and got.shape == want.shape:
+                for k in range(got.shape[0]):
+                    ref, scale = integral(fresh[(i, "rate")][k], it["df"], it["dth"])
+                    if not abs(float(got[k]) - ref) <= 1e-10 * scale:
+                        v.add(dict(key, check="reuse:bulk_vs_integral"),
+                              "bulk_rate of a used object != sum(rate*df*dtheta) with the spectrum's own bin widths",
+                              bulk=float(got[k]), reference=ref)
+
+        # (1) all ordered sequences of three spectra, every method at every step
+        for seq in itertools.product(range(n), repeat=3):
+            obj = new()
+            hist = []
+            for pos, i in enumerate(seq):
+                for m in methods:
+                    step(obj, hist, i, m)
+                if pos > 0:
+                    prev = items[seq[pos - 1]]
+                    if prev["grid"] != items[i]["grid"]:
+                        same_shape = prev["E"].shape == items[i]["E"].shape
+                        c.cat("reuse_grid_switch_same_shape" if same_shape else "reuse_shape_switch")
+                hist.append((i, None))
+            c.cat("reuse_sequences")
+            c.case({"term": term, "params": pset, "sequence": list(seq)})
+            if len({items[i]["grid"] for i in seq}) > 1:
+                c.nontriv(("reuse", term, pset, seq))
+        # (2) all ordered pairs of (spectrum, single method) operations
+        ops = [(i, m) for i in range(n) for m in methods]
+        for (i1, m1), (i2, m2) in itertools.product(ops, repeat=2):
+            if items[i1]["grid"] == items[i2]["grid"]:
+                continue  # named restriction 'grid_changes': pairs on one grid are covered by (1)
+            obj = new()
+            step(obj, [], i1, m1)
+            step(obj, [(i1, m1)], i2, m2)
+            c.cat("reuse_method_pairs")
+            c.case({"term": term, "params": pset, "ops": [[i1, m1], [i2, m2]]})
+        if pset != "default":
+            c.cat("nondefault_parameters")
 
 
 def run_unit(unit):
